@@ -6,14 +6,26 @@ from harness import frames_gen as G
 from harness.common import Prop
 
 
-async def _probe(tbl, idx, raw, lo, hi, other):
+def _setter(q, via_device):
+    """the write call: Parameter.set, or Device.set(name, ...) of the device that owns the parameter"""
+    if not via_device:
+        return lambda value: q.set(value, retries=1, timeout=1.0)
+    q.device.data[q.description.name] = q
+    return lambda value: q.device.set(q.description.name, value, retries=1)
+
+
+async def _probe(tbl, idx, raw, lo, hi, other, via_device=False):
     """display of raw / bounds, and the raw value transmitted when the displayed value is written back."""
-    p, queue, sc, rc, dec = param_impl.make_param(tbl, idx, [raw, lo, hi], True, 0)
+    if tbl == 5:
+        p, queue, sc, rc, dec = await param_impl.make_schedule_param(idx, [raw, lo, hi])
+        q, queue2, sc2, rc2, dec2 = await param_impl.make_schedule_param(idx, [other, 0, 65535])
+    else:
+        p, queue, sc, rc, dec = param_impl.make_param(tbl, idx, [raw, lo, hi], True, 0)
+        q, queue2, sc2, rc2, dec2 = param_impl.make_param(tbl, idx, [other, 0, 65535], True, 0)
     shown, smin, smax = p.value, p.min_value, p.max_value
-    q, queue2, sc2, rc2, dec2 = param_impl.make_param(tbl, idx, [other, 0, 65535], True, 0)
     import asyncio
-    task = asyncio.ensure_future(q.set(shown, retries=1, timeout=1.0))
-    for _ in range(6):
+    task = asyncio.ensure_future(_setter(q, via_device)(shown))
+    for _ in range(8):
         await asyncio.sleep(0)
     outs = param_impl.drain(queue2, sc2, rc2, dec2)
     task.cancel()
@@ -25,14 +37,18 @@ async def _probe(tbl, idx, raw, lo, hi, other):
     return shown, smin, smax, sent
 
 
-async def _accept(tbl, idx, w, blo, bhi, held):
+async def _accept(tbl, idx, w, blo, bhi, held, via_device=False):
     """is the displayed form of raw value w accepted by a parameter held with raw bounds [blo, bhi]?  -> transmitted raws / 'refused'"""
     import asyncio
-    src, *_ = param_impl.make_param(tbl, idx, [w, 0, 65535], True, 0)
+    if tbl == 5:
+        src, *_ = await param_impl.make_schedule_param(idx, [w, 0, 65535])
+        q, queue2, sc2, rc2, dec2 = await param_impl.make_schedule_param(idx, [held, blo, bhi])
+    else:
+        src, *_ = param_impl.make_param(tbl, idx, [w, 0, 65535], True, 0)
+        q, queue2, sc2, rc2, dec2 = param_impl.make_param(tbl, idx, [held, blo, bhi], True, 0)
     shown = src.value
-    q, queue2, sc2, rc2, dec2 = param_impl.make_param(tbl, idx, [held, blo, bhi], True, 0)
-    task = asyncio.ensure_future(q.set(shown, retries=1, timeout=1.0))
-    for _ in range(6):
+    task = asyncio.ensure_future(_setter(q, via_device)(shown))
+    for _ in range(8):
         await asyncio.sleep(0)
     outs = param_impl.drain(queue2, sc2, rc2, dec2)
     refused = task.done() and not task.cancelled() and isinstance(task.exception(), ValueError)
@@ -59,8 +75,6 @@ class C17(Prop):
         t = G.tables()
         cases = []
         for tbl, name in enumerate(param_impl.TABLES):
-            if tbl == 5:
-                continue
             for idx, d in enumerate(t[name]):
                 if d["switch"]:
                     continue
@@ -69,6 +83,9 @@ class C17(Prop):
                 if d["size"] == 2:
                     k = 512 if tier == "quick" else 8192
                     raws = sorted(set([0, 1, 255, 256, hi - 1, hi] + [rng.randrange(hi + 1) for _ in range(k)]))
+                elif tbl == 5:
+                    # the forty schedule parameters (plain one-byte numbers): what matters is that the request goes to THEIR schedule
+                    raws = sorted(set([0, 255] + [rng.randrange(256) for _ in range(2 if tier == "quick" else 12)]))
                 elif scaled or tier == "thorough":
                     raws = list(range(256))
                 else:
@@ -78,17 +95,22 @@ class C17(Prop):
                     marks = [0, 1, 100, 254, 255] + ([256, 257, 511, 32767, 32768, hi - 1, hi] if d["size"] == 2 else [])
                     blo, bhi = sorted([rng.choice(marks), rng.choice(marks)])
                     w = rng.choice([raw, blo, bhi, max(0, blo - 1), min(hi, bhi + 1), rng.randrange(hi + 1)])
+                    # the value held before the write: another raw value; for scaled descriptions often the raw value that is
+                    # numerically equal to the DISPLAYED value being written (5.0 displayed while raw 5 is held)
+                    def held_for(r):
+                        x = int((r - d["offset"]) * d["multiplier"])
+                        return x if (scaled and 0 <= x <= hi and x != r and rng.random() < 0.6) else (r + 1) % (hi + 1)
                     cases.append({"kind": "%s:%s" % (name, "scaled" if scaled else "plain"), "tbl": tbl, "idx": idx, "raw": raw,
-                                  "lo": rng.choice([0, raw]), "hi": rng.choice([hi, raw]), "other": (raw + 1) % (hi + 1),
-                                  "acc": [w, blo, bhi, (w + 1) % (hi + 1)]})   # held value differs from the request
+                                  "lo": rng.choice([0, raw]), "hi": rng.choice([hi, raw]), "other": held_for(raw),
+                                  "acc": [w, blo, bhi, held_for(w)], "via_device": rng.random() < 0.5})
         return cases
 
     def run_impl(self, c):
-        shown, smin, smax, sent = vloop.run(_probe, c["tbl"], c["idx"], c["raw"], c["lo"], c["hi"], c["other"])
+        shown, smin, smax, sent = vloop.run(_probe, c["tbl"], c["idx"], c["raw"], c["lo"], c["hi"], c["other"], c.get("via_device", False))
         out = {"display": coqeval.float_key(float(shown)), "min": coqeval.float_key(float(smin)),
                "max": coqeval.float_key(float(smax)), "sent": sent}
         if "acc" in c:
-            out["accept"] = vloop.run(_accept, c["tbl"], c["idx"], *c["acc"])
+            out["accept"] = vloop.run(_accept, c["tbl"], c["idx"], *c["acc"], c.get("via_device", False))
         return out
 
     def model_many(self, cases):
